@@ -26,7 +26,7 @@ func (params Params) ValidateParamsMintDenom() error {
 	if len(params.MintDenom) == 0 {
 		return fmt.Errorf("denom cannot be empty")
 	}
-	return nil
+	return sdk.ValidateDenom(params.MintDenom)
 }
 
 func (params Params) ValidateParamsMinters() error {
